@@ -256,9 +256,9 @@ theorem insertK_key {α} (g : PyVal → PyVal) (x : PyVal × α) (xs : List (PyV
     have hy := hxs y (by simp)
     simp only [List.map_cons, insertK, hx, hy]
     split
-    · rfl
     · simp only [List.map_cons]
       rw [ih (fun p hp => hxs p (by simp [hp]))]
+    · rfl
 
 theorem sortK_key {α} (g : PyVal → PyVal) (xs : List (PyVal × α)) (h : ∀ p ∈ xs, sortKey (g p.1) = sortKey p.1) :
     sortK (xs.map fun p => (g p.1, p.2)) = (sortK xs).map fun p => (g p.1, p.2) := by
